@@ -27,12 +27,13 @@ import (
 //	    non-null value; MinValue/MaxValue bound the non-null non-NaN values; a claimed order is true;
 //	    OffsetIndex.FirstRowIndex(i) = rows before page i; NumValues() = values read
 //	L2  value/null/row count of each page against the Lean level model (`c05.levels`, levelStats_exact) run on
-//	    the level stream read back, and the chunk's NullCount against the mirror of
-//	    nullableColumnIndex.NullCount (`c05.bufnulls`)
+//	    the level stream read back, and NullCount/NullPage against the mirror of nullableColumnIndex over the
+//	    buffer's definition levels (`c05.bufnulls`, theorem bufferIndex_exact; the level-0 slip is refuted by
+//	    bufferIndex_levelZero_wrong)
 //
 // Schemas: leaves at max definition level 0..3 and max repetition level 0..2 (optional leaf in an optional
 // group, in a repeated group, in two optional groups; repeated leaf in an optional / repeated group; required
-// leaf in an optional group), int64/int32/double/string leaves, one dictionary-indexed leaf. Nulls are placed
+// leaf in an optional group), int64/int32/double/float/string leaves (NaN, -0, infinities among the floats), one dictionary-indexed leaf. Nulls are placed
 // at EVERY definition level below the max (parent null, parent present + leaf null, empty list), buffers of
 // nulls only with and without a level-0 null, buffers filled through the typed and the untyped API, sorted or
 // not; several buffers (optionally together with a row group of a file written from one of them) are also read
@@ -43,6 +44,8 @@ type c05BufLeafs struct {
 	S  *string  `parquet:"s,optional" json:"s,omitempty"`
 	F  *float64 `parquet:"f,optional" json:"-"`
 	FB *uint64  `parquet:"-" json:"f,omitempty"` // bit pattern of F (NaN payloads survive the replay file)
+	H  *float32 `parquet:"h,optional" json:"-"`
+	HB *uint32  `parquet:"-" json:"h,omitempty"` // bit pattern of H
 	R  int32    `parquet:"r" json:"r"`
 	L  []int64  `parquet:"l" json:"l,omitempty"`
 }
@@ -65,6 +68,10 @@ func (l *c05BufLeafs) fix() {
 	if l != nil && l.FB != nil {
 		f := math.Float64frombits(*l.FB)
 		l.F = &f
+	}
+	if l != nil && l.HB != nil {
+		h := math.Float32frombits(*l.HB)
+		l.H = &h
 	}
 }
 
@@ -119,6 +126,11 @@ func c05BufGenLeafs(r *rand.Rand, mode int) c05BufLeafs {
 	}
 	for i := r.Intn(4); i > 0; i-- {
 		l.L = append(l.L, int64(r.Intn(9)-4))
+	}
+	// drawn last (and from the same stream) so that the other leaves of a case keep their values
+	if r.Intn(3) > 0 {
+		hb := math.Float32bits(float32(math.Float64frombits(c05BufFloats[r.Intn(len(c05BufFloats))])))
+		l.HB = &hb
 	}
 	l.fix()
 	return l
@@ -276,6 +288,8 @@ func c05BufKindOf(t parquet.Type) *c05Kind {
 		name = "i64"
 	case parquet.Double:
 		name = "f64"
+	case parquet.Float:
+		name = "f32"
 	case parquet.ByteArray:
 		name = "string"
 	default:
